@@ -347,6 +347,8 @@ def settings():
 
 
 def key(case):
+    if case.get("engine"):
+        return "engine-process"
     rt = sorted({op[2] for op in case["ops"] if op[0] == "defuzz"})
     k = "rtypes=" + ",".join(rt)
     faults = sorted({op[1] for op in case["ops"] if (op[0] == "raise" and len(op) > 1) or op[0] == "real"})
@@ -356,7 +358,58 @@ def key(case):
     return k
 
 
+def _tiny_engine(setting):
+    lp, lr, dv = setting[:3]
+    lo, hi = bounds(setting)
+    return fl.Engine("e", input_variables=[fl.InputVariable("a", minimum=0.0, maximum=1.0, terms=[fl.Triangle("lo", 0.0, 0.25, 0.5),
+                                                                                                   fl.Triangle("hi", 0.5, 0.75, 1.0)])],
+                     output_variables=[fl.OutputVariable("o", minimum=lo, maximum=hi, lock_range=lr, lock_previous=lp, default_value=dv,
+                                                         defuzzifier=fl.Centroid(20), aggregation=fl.Maximum(),
+                                                         terms=[fl.Triangle("s", -0.5, 0.0, 0.5), fl.Triangle("t", 0.5, 1.0, 1.5)])],
+                     rule_blocks=[fl.RuleBlock("b", conjunction=fl.Minimum(), disjunction=fl.Maximum(), implication=fl.Minimum(),
+                                               activation=fl.General(),
+                                               rules=[fl.Rule.create("if a is lo then o is s"), fl.Rule.create("if a is hi then o is t")])])
+
+
+def oracle_engine(case):
+    """the cascade through `Engine.process()`: in a step in which nothing is activated for the output variable (its rule block is
+    switched off) the defuzzified value is NaN like any other undefined result - previous value, lock-previous, default and range
+    apply to it.  The raw value of a step comes from a fresh engine without lock-previous / default / range lock."""
+    setting = tuple(case["setting"])
+    e = _tiny_engine(setting)
+    ops = []
+    for i, (on, x) in enumerate(case["steps"]):
+        raw = NAN
+        if on:
+            f = _tiny_engine((False, False, NAN) + tuple(setting[3:]))
+            f.input_variables[0].value = x
+            with np.errstate(all="ignore"):
+                f.process()
+            raw = float(np.asarray(f.output_variables[0].value).reshape(-1)[-1])
+        ops.append(("defuzz", [raw], "float"))
+        e.rule_blocks[0].enabled = bool(on)
+        e.input_variables[0].value = x
+        with np.errstate(all="ignore"):
+            e.process()
+        want = spec(setting, ops)[-1]
+        got_v, got_p = canon(e.output_variables[0].value), float(e.output_variables[0].previous_value)
+        if len(got_v) != len(want[0]) or not all(same(a, b) for a, b in zip(got_v, want[0])) or not same(got_p, want[1]):
+            return False, (f"Engine.process() step {i} (rule block {'on' if on else 'off'}, a = {x}): value {got_v}, previous value {got_p}; "
+                           f"the defuzzified value of this step is {raw}, the documented cascade gives {want[0]}, previous {want[1]}")
+    return True, "ok"
+
+
+def gen_engine_cases(ctx):
+    rng = ctx.rng
+    for setting in settings():
+        for _ in range(ctx.scale(2, 12)):
+            steps = [[rng.random() < 0.6, rng.choice([0.1, 0.25, 0.4, 0.6, 0.75, 0.9, 0.5, 2.0])] for _ in range(rng.choice([2, 3, 4, 5]))]
+            yield {"engine": True, "setting": list(setting), "steps": steps}
+
+
 def oracle(case):
+    if case.get("engine"):
+        return oracle_engine(case)
     setting = tuple(case["setting"])
     ops = [tuple(o) for o in case["ops"]]
     tables = case.get("tables")
@@ -643,6 +696,13 @@ def correspond(ctx):
             mism.append({"case": case, "violation": True, "detail": detail, "what": detail})
     # drawn after every earlier stream: defuzzifiers that keep the arrays they hand out, alone or shared by two variables
     kept_against_model(ctx, mism, viol_keys)
+    # the cascade reached through Engine.process(), with steps in which nothing is activated (drawn last)
+    for case in gen_engine_cases(ctx):
+        ok, detail = oracle(case)
+        st.count("engine-process")
+        if not ok:
+            mism.append({"case": case, "violation": True, "detail": detail, "what": detail})
+            break
     ctx.notes["exhaustive"] = True
     ctx.notes["exhaustive_space"] = f"all value sequences of length <= {ctx.scale(4, 5)} over {len(POOL)} values x all splits x 16 settings"
     return mism
@@ -655,6 +715,10 @@ def search(ctx):
         if not ok:
             return [(case, d)]
     for case in gen_kept_cases(ctx):
+        ok, d = oracle(case)
+        if not ok:
+            return [(case, d)]
+    for case in gen_engine_cases(ctx):
         ok, d = oracle(case)
         if not ok:
             return [(case, d)]
